@@ -487,6 +487,10 @@ def d(ck: Check) -> None:
                     probs.append("forward step of the extension loop is not var_post_out(var, reach_set)")
             if callee_name(n.value) == "var_pre_out":
                 BWD = n.targets[0].id
+        elif isinstance(n, ast.Assign) and isinstance(n.targets[0], ast.Name) and isinstance(n.value, ast.IfExp):
+            # `bwd = graph.var_pre_out(var, avoid) if avoid is not None else <empty>`
+            if any(isinstance(c_, ast.Call) and callee_name(c_) == "var_pre_out" for c_ in ast.walk(n.value)):
+                BWD = n.targets[0].id
     if FWD is None:
         probs.append("forward step of the extension loop is not var_post_out(var, reach_set)")
     for n in ast.walk(el):
